@@ -18,6 +18,8 @@
 //	(conc <inproc|http> (client <name> <tree> (<op>...))...)
 //	(cobs <stray 0|1> <hang 0|1> (cl (<answer>...) <tree> (<answer>...) <tree>)...)
 //
+// Part "upx" (upx.go): the caller's context ends at an arbitrary point of an upload.
+//
 // Part "gate" (gate.go): independence of progress — requests held in the middle by the
 // harness must not keep requests on disjoint collections from completing as alone.
 //
@@ -139,6 +141,9 @@ type env struct {
 	decided atomic.Bool   // the exchange has been decided (answer / drop / cancellation)
 	corrupt atomic.Bool   // the bytes received are not the bytes written
 	got     int
+	// part "upx": the environment announces that it has seen EOF and waits for the
+	// harness (which cancels the caller's context meanwhile) before it decides
+	atEOF, resume chan struct{}
 }
 
 // consume reads what the script says from the request body.
@@ -180,6 +185,13 @@ func (e *env) consume(body io.Reader) {
 		}
 		if e.got != e.sc.total() {
 			e.corrupt.Store(true)
+		}
+		if e.atEOF != nil {
+			close(e.atEOF)
+			select {
+			case <-e.resume:
+			case <-time.After(5 * time.Second):
+			}
 		}
 	}
 }
@@ -1238,6 +1250,8 @@ func main() {
 			switch {
 			case x.Head() == "up":
 				sink.Put(runUpload(parseScript(x), upWatchdog))
+			case x.Head() == "upx":
+				sink.Put(runUploadX(parseXScript(x), upWatchdog))
 			case x.Head() == "conc" && len(x.List) == 2 && x.List[1].Atom == "race":
 				raceSoak(sink)
 			case x.Head() == "conc":
@@ -1286,6 +1300,27 @@ func main() {
 		close(in)
 		wg.Wait()
 		fmt.Fprintf(os.Stderr, "c18: %d upload cases\n", len(scripts))
+		xs := uploadXScripts(thorough)
+		inx := make(chan xscript, 256)
+		var wgx sync.WaitGroup
+		for w := 0; w < workers; w++ {
+			wgx.Add(1)
+			go func() {
+				defer wgx.Done()
+				for x := range inx {
+					sink.Put(runUploadX(x, upWatchdog))
+				}
+			}()
+		}
+		for _, x := range xs {
+			if tooBroken() {
+				break
+			}
+			inx <- x
+		}
+		close(inx)
+		wgx.Wait()
+		fmt.Fprintf(os.Stderr, "c18: %d cancellation cases\n", len(xs))
 	}
 	if *mode == "conc" || *mode == "all" {
 		ws := concWorkloads(rng.Fork(2), thorough, 1)
